@@ -1,6 +1,7 @@
 import CueVerif.Driver.Proto
 import CueVerif.Spec.JsonSchema
 import CueVerif.Model.JsonSchemaSkel
+import CueVerif.Model.JsonSchemaCC
 /-!
 Driver for C13.  Ops:
 
@@ -10,6 +11,9 @@ Driver for C13.  Ops:
   reverse direction: both schemas judged by the oracle on the same instance.
 * `skel <allowed> <known> <presence> <nAll>` → the kind skeleton `Skel.finalize` assembles (internal
   correspondence with `state.finalize`).
+* `cc <schema-json-hex>` → canonical text of `CCm.translate` (the transcribed builders) for the
+  schema, or `outside` when the schema leaves the transcribed subset (`CCm.inModel`) — internal
+  correspondence with the CUE AST the real importer builds.
 
 Contains a small total JSON parser (RFC 8259; numbers as exact decimals) and the
 JSON → `JS.Schema` reader.  Core Lean only.
@@ -291,6 +295,72 @@ def readSchema (h : String) : Except String Schema :=
   | none => .error "bad-json"
   | some j => toSchema 1000000 j
 
+
+/-! ### canonical text of a `CC` (mirrored by harness/c13_cc.go on the importer's AST) -/
+
+open CueVerif.CCm in
+def numText (n : Num) : String := toString n.num ++ "/" ++ toString n.den
+
+def strHex (s : String) : String := hex (s.toUTF8.toList.map (·.toNat))
+
+open CueVerif.CCm in
+mutual
+def litText : Json → String
+  | .null => "null"
+  | .bool b => boolStr b
+  | .num n => numText n
+  | .str s => "\"" ++ strHex s ++ "\""
+  | .arr xs => "[" ++ ",".intercalate (litTexts xs) ++ "]"
+  | .obj kvs => "close{" ++ ",".intercalate (litFields kvs) ++ "}"
+def litTexts : List Json → List String
+  | [] => []
+  | x :: r => litText x :: litTexts r
+def litFields : List (String × Json) → List String
+  | [] => []
+  | (k, v) :: r => ("\"" ++ strHex k ++ "\"!:" ++ litText v) :: litFields r
+end
+
+open CueVerif.CCm in
+def cmpText : Cmp → String
+  | .ge => ">=" | .gt => ">" | .le => "<=" | .lt => "<"
+
+open CueVerif.CCm CueVerif.Skel in
+mutual
+def ccText : CC → String
+  | .top => "_"
+  | .disallowed => "!"
+  | .kind t => coreName t
+  | .int => "int"
+  | .bound op n => cmpText op ++ numText n
+  | .multipleOf n => "mul(" ++ numText n ++ ")"
+  | .minRunes n => "minR(" ++ toString n ++ ")"
+  | .maxRunes n => "maxR(" ++ toString n ++ ")"
+  | .matches p => "=~\"" ++ strHex p ++ "\""
+  | .lit v => litText v
+  | .listOpen pre rest =>
+    "[" ++ ",".intercalate (ccTexts pre ++ [if rest.isTop then "..." else "..." ++ ccText rest]) ++ "]"
+  | .listClosed pre => "[" ++ ",".intercalate (ccTexts pre) ++ "]"
+  | .maxItems n => "maxI(" ++ toString n ++ ")"
+  | .uniqueItems => "uniq"
+  | .listMatchN lo hi c =>
+    "lmN(>=" ++ toString lo ++ (match hi with | some h => "&<=" ++ toString h | none => "") ++ "," ++ ccText c ++ ")"
+  | .and a b => "(" ++ ccText a ++ "&" ++ ccText b ++ ")"
+  | .or a b => "(" ++ ccText a ++ "|" ++ ccText b ++ ")"
+  | .matchN b vs =>
+    "mN(" ++ (match b with | .eq n => toString n | .ge n => ">=" ++ toString n) ++ ",[" ++
+      ",".intercalate (ccTexts vs) ++ "])"
+  | .matchIf i t e => "mIf(" ++ ccText i ++ "," ++ ccText t ++ "," ++ ccText e ++ ")"
+def ccTexts : List CC → List String
+  | [] => []
+  | c :: r => ccText c :: ccTexts r
+end
+
+/-- fuel for `translate` / `inModel`: ample for generated schemas (depth ≤ 6) -/
+def ccFuel : Nat := 64
+
+def ccAnswer (s : Schema) : String :=
+  if CCm.inModel ccFuel s then ccText (CCm.translate ccFuel Skel.KSet.full s).expr else "outside"
+
 def handle (ws : List String) : String :=
   match ws with
   | ["valid", sh, ih] =>
@@ -307,6 +377,10 @@ def handle (ws : List String) : String :=
     | .error e, _, _ => "bad-schema:" ++ e
     | _, .error e, _ => "bad-generated-schema:" ++ e
     | _, _, none => "bad-json"
+  | ["cc", sh] =>
+    match readSchema sh with
+    | .ok s => ccAnswer s
+    | .error e => "bad-schema:" ++ e
   | ["skel", a, k, p, n] =>
     match a.toNat?, k.toNat?, p.toNat?, n.toNat? with
     | some a, some k, some p, some n => Skel.finalizeShapeStr a k p n
